@@ -57,7 +57,7 @@ PLAN = {
     },
     'C03': {
         'fronts': [], 'bounded': [],
-        'assumptions': ['token source / event source abstractions as in C09 / C13', 'the scanner functions are not under contract yet: ScannerError-only behaviour of the scanner is NOT claimed'],
+        'assumptions': ['token source / event source abstractions as in C09 / C13', 'only the character-level helpers of the scanner (look-ahead predicates, line breaks, block-scalar header, ignored lines, %YAML number) are under contract; the fetch_* / scan_* token builders and the simple-key machinery are not: "scanning raises only ScannerError" is claimed for those helpers only'],
         'explanation': 'parser and composer functions raise only ParserError / ComposerError (YAMLError) or what the layer below raises, for arbitrary token / event sequences; no IndexError, AttributeError, TypeError, UnboundLocalError, AssertionError is reachable; reader primitives are index-safe',
     },
     'C12': {
@@ -93,5 +93,10 @@ PLAN = {
                         'sorted() of a dict\'s items is not modelled: "same contents => same order" rests on the assumed contract of sorted, it is not discharged',
                         'the fixed point dump(load(dump(x))) == dump(x) is NOT claimed'],
         'explanation': 'anchor names are a function of a per-document counter that restarts at 0 (generate_anchor, serialize, represent reset postconditions); a set is represented through a dict so that sort_keys applies to it (precondition of represent_mapping at the call site); tag and text of none/bool/int/str are functions of the value',
+    },
+    'C14': {
+        'fronts': [], 'bounded': ['c14_merge.py'],
+        'assumptions': ['registered constructors follow the constructor protocol (assumed)', 'merge flattening (flatten_mapping, SafeConstructor.construct_mapping) is covered by a BOUNDED stand-in only: the node-graph invariant it needs is hereditary through recursion and its nested quantifiers did not discharge within budget'],
+        'explanation': 'BaseConstructor.construct_mapping / construct_pairs / construct_sequence under discharged contracts (only mapping/sequence nodes accepted, unhashable keys -> ConstructorError, one entry per item, caches only grow); merge precedence rules searched exhaustively on small node graphs incl. shared merge sources (bounded, labelled)',
     },
 }
